@@ -7,6 +7,7 @@ text through them. Nothing here judges anything.
 from __future__ import annotations
 
 import asyncio
+import collections.abc
 from typing import Any, Callable, Dict, List, Optional, Tuple
 
 import pjrpc
@@ -285,6 +286,65 @@ def make_methods(log: Log, is_async: bool) -> Dict[str, Callable[..., Any]]:
     fac['js_checked'] = js_checked
     fac['js_loose'] = js_loose
 
+    # a constraint that lives in Annotated metadata, checked by the pydantic validator
+    import typing as _t
+
+    import pydantic as _pd
+
+    from pjrpc.server.validators import pydantic as _vpd
+    pd_validator = _vpd.PydanticValidator()
+
+    def pd_pos(n):
+        log.calls.append(('pd_pos', (n,), {}))
+        return ['pd_pos', n]
+
+    # (this module postpones its annotations: the real annotation object is attached by hand)
+    pd_pos.__annotations__ = {'n': _t.Annotated[int, _pd.Field(gt=0)]}
+    fac['pd_pos'] = pd_validator.validate(pd_pos)
+
+    # explicitly registered names may start with an underscore (the underscore rule concerns view members only)
+    def _under(a=0):
+        log.calls.append(('_under', (a,), {}))
+        return ['_under', a]
+
+    def _dotted(a=0):
+        log.calls.append(('ns._dotted', (a,), {}))
+        return ['_dotted', a]
+
+    fac['_under'] = _under
+    fac['ns._dotted'] = _dotted
+
+    class _Co(collections.abc.Coroutine):
+        """a coroutine object that is not a native one (what Cython or a timing decorator hands out)"""
+
+        def __init__(self, inner):
+            self._inner = inner
+
+        def send(self, value):
+            return self._inner.send(value)
+
+        def throw(self, *a):
+            return self._inner.throw(*a)
+
+        def close(self):
+            return self._inner.close()
+
+        def __await__(self):
+            return self._inner.__await__()
+
+    async def _a_cowrapped(a, b=0):
+        log.calls.append(('cowrapped', (a, b), {}))
+        await asyncio.sleep(0)
+        return ['cowrapped', a, b]
+
+    def cowrapped(a, b=0):
+        if is_async:
+            return _Co(_a_cowrapped(a, b))
+        log.calls.append(('cowrapped', (a, b), {}))
+        return ['cowrapped', a, b]
+
+    fac['cowrapped'] = cowrapped
+
     def whoami(ctx):
         log.calls.append(('whoami', (), {}))
         log.contexts.append(ctx)
@@ -345,7 +405,8 @@ def make_view(log: Log, is_async: bool):
     return ProbeView
 
 
-METHOD_NAMES = ('js_checked', 'js_loose', 'slowfail', 'byid', 'wrapped', 'whoami', 'ctxp', 'slow', 'fac1', 'fac2', 'ok', 'noargs', 'echo', 'kwonly', 'rpcerr', 'typed', 'boom', 'ctxm', 'view.vm', 'typedctor', 'raiselib')
+METHOD_NAMES = ('js_checked', 'js_loose', 'slowfail', 'byid', 'wrapped', 'whoami', 'ctxp', 'slow', 'fac1', 'fac2', 'ok', 'noargs', 'echo', 'kwonly', 'rpcerr', 'typed', 'boom', 'ctxm', 'view.vm', 'typedctor', 'raiselib', 'pd_pos', '_under',
+                'ns._dotted', 'cowrapped')
 
 
 def build_registry(log: Log, coroutines: bool) -> 'pjrpc.server.MethodRegistry':
